@@ -9,6 +9,10 @@ HOOK_COMMITS = []
 NOT_APPLICABLE = {("C%02d" % i): "check not built yet in this round; see DESIGN.md section 6 for the plan" for i in range(1, 21)}
 
 PROPS = {
+    "C15": {"level": "exploration",
+            "level_text": "Generated operation histories on IdSetDense (three chunk sizes, 32 and 64 bit), IdSetSmall, nwr_array, RelationsMapStash with all three index builders, and ItemStash (including long histories in which the automatic garbage collection must trigger) are compared call by call with std::set / std::map models; stash content is decoded by the independent layout walker.",
+            "level_note": "Trusted: the std:: models and walker.hpp. Preconditions kept: IdSetSmall size/iteration compared after sort_unique only, merge_sorted on sorted sets, ids for 64-bit dense sets below 2^36 (memory), tiny chunk sizes use ids below 64 chunks.",
+            "technique": "stateful property-based testing: generated operation histories vs std::set/std::map reference models"},
     "C04": {"level": "exploration",
             "level_text": "Generated operation histories on real Buffers (capacity 64..4096, all three growth modes) through every builder overload; after every step an independent layout walker (own bounds-checked decoder of the item layout) must decode exactly the model's committed and uncommitted item sequences; purge callbacks are compared with the model's (old,new) offsets. ASan and assertions are on, so a write through a stale pointer is fatal even if the content survives.",
             "level_note": "Trusted: walker.hpp (layout facts read from the headers), the model. Preconditions kept: one builder chain open at a time, set_user before sub-builders, purge only on entity items and without uncommitted data, non-growing buffers are only overflowed where the exception cannot be raised inside a sub-builder destructor.",
@@ -46,6 +50,9 @@ PROPS = {
 }
 
 UNITS = [
+    {"name": "c15_sets", "props": ["C15"], "kind": "vp", "src": "harness/c15_sets.cpp", "flags": ASAN, "libs": "",
+     "quick": {"cases": 800, "shards": 16, "case_timeout": 120, "min_evaluations": 8000},
+     "thorough": {"cases": 12000, "shards": 16, "case_timeout": 300, "min_evaluations": 100000}},
     {"name": "c04_buffer", "props": ["C04"], "kind": "vp", "src": "harness/c04_buffer.cpp", "flags": ASAN, "libs": "",
      "quick": {"cases": 1200, "shards": 16, "case_timeout": 60, "min_evaluations": 10000},
      "thorough": {"cases": 50000, "shards": 16, "case_timeout": 120, "min_evaluations": 500000}},
